@@ -6,6 +6,7 @@ import (
 	"errors"
 	"fmt"
 	"os"
+	"path/filepath"
 	"regexp"
 	"strconv"
 	"strings"
@@ -14,7 +15,9 @@ import (
 
 	"github.com/influxdata/influxdb/coordinator"
 	"github.com/influxdata/influxdb/models"
+	"github.com/influxdata/influxdb/services/hh"
 	"github.com/influxdata/influxdb/services/meta"
+	"github.com/influxdata/influxdb/toml"
 	"github.com/influxdata/influxdb/tsdb"
 	"verifharness/clusterh"
 	"verifharness/fw"
@@ -152,6 +155,9 @@ func (Prop) Generate(r *fw.Rand, tier string) []fw.Case {
 			Tags: []string{fmt.Sprintf("n=%d", n), "sampled"}})
 	}
 	cases = append(cases, fw.Case{Ops: []string{"e2elate one"}, Tags: []string{"e2e-late"}})
+	for _, lv := range []string{"any", "one", "quorum", "all"} {
+		cases = append(cases, fw.Case{Ops: []string{"e2equeue " + lv}, Tags: []string{"e2e-queue"}})
+	}
 	if tier == "thorough" {
 		cases = append(cases, fw.Case{Ops: []string{"e2elate all"}, Tags: []string{"e2e-late"}}, fw.Case{Ops: []string{"e2elate any"}, Tags: []string{"e2e-late"}})
 	}
@@ -552,7 +558,7 @@ func runLate(f []string) (res string) {
 	c.SetFault(1, clusterh.Fault{Kind: "slow"})
 	pa := models.MustNewPoint("m", models.NewTags(map[string]string{"h": "a"}), models.Fields{"v": int64(2)}, time.Unix(0, base+2))
 	c.Nodes[0].PointsWriter.WritePointsPrivileged(clusterh.DB, clusterh.RP, lv, []models.Point{pa}) // times out
-	time.Sleep(clusterh.SlowDelay + 300*time.Millisecond)                                            // A's answer is on its way back by now
+	time.Sleep(clusterh.SlowDelay + 300*time.Millisecond)                                           // A's answer is on its way back by now
 	c.SetFault(1, clusterh.Fault{})
 	if err := c.Nodes[1].Store.SetShardEnabled(ids[0], false); err != nil {
 		return "err:disable:" + strings.ReplaceAll(err.Error(), " ", "_")
@@ -574,11 +580,102 @@ func runLate(f []string) (res string) {
 	return "late-answer-ignored"
 }
 
+// countHH is the real hinted-handoff service with its offers counted.
+type countHH struct {
+	*hh.Service
+	mu     sync.Mutex
+	offers map[uint64]int
+}
+
+func (h *countHH) WriteShard(shardID, ownerID uint64, points []models.Point) error {
+	h.mu.Lock()
+	h.offers[ownerID]++
+	h.mu.Unlock()
+	return h.Service.WriteShard(shardID, ownerID, points)
+}
+
+// runQueued: `e2equeue <level>` — two real nodes and the real hinted-handoff service behind
+// the coordinator's PointsWriter; the second shard group's shard is owned by the remote node
+// only. The owner refuses write A (its shard is disabled), so A goes to the owner's handoff
+// queue, which does not retry for an hour. The owner is healthy again: write B must wait
+// behind the queue — offered to hinted handoff exactly once, not sent around the queued A —
+// and is reported as the level says (success only at level any).
+func runQueued(f []string) (res string) {
+	defer func() {
+		if r := recover(); r != nil {
+			res = "panic:" + strings.ReplaceAll(fmt.Sprint(r), " ", "_")
+		}
+	}()
+	e2eMu.Lock()
+	defer e2eMu.Unlock()
+	lv, err := models.ParseConsistencyLevel(f[1])
+	if err != nil {
+		return "bad-op"
+	}
+	dir, _ := os.MkdirTemp(shardh.WorkDir("c03"), "queue-")
+	defer os.RemoveAll(dir)
+	c, err := clusterh.New(dir, 2, "inmem")
+	if err != nil {
+		return "err:" + strings.ReplaceAll(err.Error(), " ", "_")
+	}
+	defer c.Close()
+	const base = int64(1600000000000000000)
+	c.AddShardGroup(base-1000000, base, [][]int{{0}, {0}, {0}}) // (shard ids that are no node ids)
+	ids := c.AddShardGroup(base, base+1000000, [][]int{{1}})
+	cfg := hh.NewConfig()
+	cfg.Dir = filepath.Join(dir, "hh")
+	cfg.RetryInterval = toml.Duration(time.Hour)
+	cfg.RetryMaxInterval = toml.Duration(time.Hour)
+	svc := hh.NewService(cfg, c.Nodes[0].ShardWriter)
+	svc.MetaClient = c.Nodes[0].Meta
+	if err := svc.Open(); err != nil {
+		return "err:hh_open:" + strings.ReplaceAll(err.Error(), " ", "_")
+	}
+	defer svc.Close()
+	h := &countHH{Service: svc, offers: map[uint64]int{}}
+	c.Nodes[0].PointsWriter.HintedHandoff = h
+	pt := func(v int64) []models.Point {
+		return []models.Point{models.MustNewPoint("m", models.NewTags(map[string]string{"h": "a"}), models.Fields{"v": v}, time.Unix(0, base+v))}
+	}
+	// a first write opens the shard on the owner
+	if err := c.Nodes[0].PointsWriter.WritePointsPrivileged(clusterh.DB, clusterh.RP, lv, pt(1)); err != nil {
+		return "err:first_write:" + strings.ReplaceAll(err.Error(), " ", "_")
+	}
+	if err := c.Nodes[1].Store.SetShardEnabled(ids[0], false); err != nil {
+		return "err:disable:" + strings.ReplaceAll(err.Error(), " ", "_")
+	}
+	c.Nodes[0].PointsWriter.WritePointsPrivileged(clusterh.DB, clusterh.RP, lv, pt(2)) // refused: queued
+	if h.Empty(ids[0], c.IDs[1]) {
+		return "QUEUE the refused write is not in the owner's handoff queue"
+	}
+	if err := c.Nodes[1].Store.SetShardEnabled(ids[0], true); err != nil {
+		return "err:enable:" + strings.ReplaceAll(err.Error(), " ", "_")
+	}
+	h.mu.Lock()
+	before := h.offers[c.IDs[1]]
+	h.mu.Unlock()
+	werr := c.Nodes[0].PointsWriter.WritePointsPrivileged(clusterh.DB, clusterh.RP, lv, pt(3))
+	h.mu.Lock()
+	offered := h.offers[c.IDs[1]] - before
+	h.mu.Unlock()
+	if offered != 1 {
+		return fmt.Sprintf("QUEUE a write for an owner with a non-empty handoff queue was offered to hinted handoff %d times", offered)
+	}
+	if (werr == nil) != (lv == models.ConsistencyLevelAny) {
+		return fmt.Sprintf("QUEUE a write that only reached the handoff queue was reported as %s at level %s", classify(werr), f[1])
+	}
+	return "queued-behind"
+}
+
 func (Prop) RunImpl(c fw.Case) []string {
 	out := make([]string, len(c.Ops))
 	for i, op := range c.Ops {
 		if strings.HasPrefix(op, "e2elate ") {
 			out[i] = runLate(strings.Fields(op))
+			continue
+		}
+		if strings.HasPrefix(op, "e2equeue ") {
+			out[i] = runQueued(strings.Fields(op))
 			continue
 		}
 		if strings.HasPrefix(op, "e2e ") {
@@ -594,6 +691,12 @@ func (Prop) RunImpl(c fw.Case) []string {
 // result/effects — no reference to the Lean model.
 func (Prop) Oracle(c fw.Case, implOut []string) fw.Verdict {
 	for k, op := range c.Ops {
+		if strings.HasPrefix(op, "e2equeue ") && k < len(implOut) {
+			if o := implOut[k]; o != "queued-behind" {
+				return fw.Verdict{OK: false, Why: op + " => " + o, Signature: "a write for an owner with a non-empty handoff queue does not wait behind it"}
+			}
+			continue
+		}
 		if strings.HasPrefix(op, "e2elate ") && k < len(implOut) {
 			if o := implOut[k]; o != "late-answer-ignored" {
 				return fw.Verdict{OK: false, Why: op + " => " + o, Signature: "a late answer to an earlier write is taken for the answer to the next"}
